@@ -11,7 +11,7 @@ use crate::Ctx;
 use serde_json::json;
 use std::mem::{size_of, MaybeUninit};
 
-const RULE: &str = "for each set x key type {PrivateKey, PublicKey} x provenance {keygen_from_seed, try_keygen_with_rng, try_from_bytes, get_public_key, clone; plus keys imported from degenerate encodings: public keys that are all-zero / all-FF / with rho = 0 / rho = FF, private keys with rho = K = tr = 0 or FF or made of all-zero bytes, the public keys derived from those, and clones} x placement {stack slot MaybeUninit<T>, heap Box<MaybeUninit<T>>}: the object is written into storage the harness owns, the fraction of non-zero bytes is measured (must be > 25%: the object really holds key material), ptr::drop_in_place runs the type's Drop, then every one of size_of::<T>() bytes is read with read_volatile and must be 0. Non-trivial = distinct (set, type, provenance, placement, key) objects whose storage was non-zero before and fully inspected after the drop. Copies left behind by earlier moves are out of reach.";
+const RULE: &str = "for each set x key type {PrivateKey, PublicKey} x provenance {keygen_from_seed, try_keygen_with_rng, try_from_bytes, get_public_key, clone; plus keys imported from degenerate encodings: public keys that are all-zero / all-FF / with rho = 0 / rho = FF, private keys with rho = K = tr = 0 or FF or made of all-zero bytes, the public keys derived from those, and clones; plus keys in which one polynomial of s1 / s2 / t0 / t1 is a constructed in-range multiple of X^16 - r_k (k in {0,1,7,14,15}), so that its in-memory NTT form has one whole 64-byte line of zeros inside dense data, and their clones} x placement {stack slot MaybeUninit<T>, heap Box<MaybeUninit<T>>}: the object is written into storage the harness owns, the fraction of non-zero bytes is measured (must be > 25%: the object really holds key material), ptr::drop_in_place runs the type's Drop, then every one of size_of::<T>() bytes is read with read_volatile and must be 0. Non-trivial = distinct (set, type, provenance, placement, key) objects whose storage was non-zero before and fully inspected after the drop. Copies left behind by earlier moves are out of reach.";
 
 pub fn run(ctx: &Ctx) -> StageOut {
     let mut acc = Acc::new();
@@ -155,6 +155,44 @@ fn run_set<S: PS>(ctx: &Ctx) -> Acc {
                 let hs = r::sk_encode(p, &[0u8; 32], &[0u8; 32], &[0u8; 64], &zs, &zs2, &zt);
                 judge_min(&mut acc, p.name, "PrivateKey", "try_from_bytes(all-zero bytes)", heap, &xi, guarded(|| probe(|| S::sk_from(&hs).unwrap(), heap)), 32);
                 judge_min(&mut acc, p.name, "PublicKey", "get_public_key of sk(all-zero bytes)", heap, &xi, guarded(|| { let k = S::sk_from(&hs).unwrap(); probe(|| S::derive(&k), heap) }), 32);
+            }
+            // keys whose in-memory (NTT-domain) polynomials contain an aligned run of 16 zero coefficients
+            // (one whole 64-byte line) in the middle of dense data: one polynomial of s1 / s2 / t0 / t1 is
+            // replaced by a multiple of X^16 - r_k, in range for its field, for several groups k
+            if ki == 0 {
+                use refimpl as r;
+                let parts = r::sk_decode(p, &sk_b);
+                let (rho_pk, t1) = r::pk_decode(p, &pk_b);
+                let mut gz = Prng::derive(ctx.seed, &format!("c16-zero-run-{}", p.name), u64::from(heap));
+                for (gi, k) in [0usize, 1, 7, 14, 15].into_iter().enumerate() {
+                    for field in ["s1", "s2", "t0", "t1"] {
+                        let name = format!("try_from_bytes({field} polynomial with NTT coefficients [{}..{}) = 0)", 16 * k, 16 * k + 16);
+                        match field {
+                            "t1" => {
+                                let mut t = t1.clone();
+                                let idx = if gi % 2 == 0 { 0 } else { p.k - 1 };
+                                t[idx] = crate::gen::poly_zero_ntt_group(&mut gz, 0, 1023, k, 16);
+                                let bytes = r::pk_encode(&rho_pk, &t);
+                                let confirmed = S::h_ntt_k(&crate::sets::v_to_i32(&t))[idx][16 * k..16 * k + 16].iter().all(|&c| c == 0);
+                                acc.count("crafted_zero_runs_confirmed_by_ntt_hook", u64::from(confirmed));
+                                judge(&mut acc, p.name, "PublicKey", &name, heap, &bytes[32..96], guarded(|| probe(|| S::pk_from(&bytes).unwrap(), heap)));
+                                judge(&mut acc, p.name, "PublicKey", &format!("clone of {name}"), heap, &bytes[32..96], guarded(|| { let kx = S::pk_from(&bytes).unwrap(); probe(|| kx.clone(), heap) }));
+                            }
+                            _ => {
+                                let (mut s1, mut s2, mut t0) = (parts.s1.clone(), parts.s2.clone(), parts.t0.clone());
+                                let classes = if p.eta == 2 { 2 } else { 4 };
+                                match field {
+                                    "s1" => { let idx = if gi % 2 == 0 { 0 } else { p.l - 1 }; s1[idx] = crate::gen::poly_zero_ntt_group(&mut gz, -p.eta, p.eta, k, classes); }
+                                    "s2" => { let idx = if gi % 2 == 0 { p.k - 1 } else { 0 }; s2[idx] = crate::gen::poly_zero_ntt_group(&mut gz, -p.eta, p.eta, k, classes); }
+                                    _ => { let idx = if gi % 2 == 0 { 0 } else { p.k - 1 }; t0[idx] = crate::gen::poly_zero_ntt_group(&mut gz, -(1 << 12) + 1, 1 << 12, k, 16); }
+                                }
+                                let bytes = r::sk_encode(p, &parts.rho, &parts.key, &parts.tr, &s1, &s2, &t0);
+                                judge(&mut acc, p.name, "PrivateKey", &name, heap, &bytes[128..192], guarded(|| probe(|| S::sk_from(&bytes).unwrap(), heap)));
+                                judge(&mut acc, p.name, "PrivateKey", &format!("clone of {name}"), heap, &bytes[128..192], guarded(|| { let kx = S::sk_from(&bytes).unwrap(); probe(|| kx.clone(), heap) }));
+                            }
+                        }
+                    }
+                }
             }
             // the pair as returned by key generation, dropped as a tuple
             judge(&mut acc, p.name, "(PublicKey,PrivateKey)", "keygen_from_seed", heap, &xi, guarded(|| probe(|| S::keygen_seed(&xi), heap)));
